@@ -734,7 +734,7 @@ fn run(ctx: &mut Ctx) {
         ctx.fact("family_e_cases", ne);
     }
     // family S: EVERY string of length <= 4 over {a, CR, LF} as the golden's content (121) x UPDATE_GOLDEN {unset, "", "1"};
-    // inside a case EVERY such string as `got` (121), each on a freshly written golden: assert returns exactly for
+    // inside a case every such string of length <= 3 (quick; <= 4 thorough) plus the content itself, raw and normalised, as `got`, each on a freshly written golden: assert returns exactly for
     // got == content with each CRLF pair replaced by LF (one pass: the statement's definition, CR CR LF -> CR LF),
     // nothing on disk changes without update mode, the file holds `got` with it
     {
@@ -762,12 +762,15 @@ fn run(ctx: &mut Ctx) {
                 }
                 let root = root.clone();
                 let all = &all;
+                let full_gots = thorough;
                 ctx.case(
-                    || format!("golden content {:?}; UPDATE_GOLDEN {}; assert(got) for every string of length <= 4 over {{a, CR, LF}}", content, env.name()),
+                    || format!("golden content {:?}; UPDATE_GOLDEN {}; assert(got) for every string of length <= {} over {{a, CR, LF}} (and for the content itself, raw and normalised)", content, env.name(), if full_gots { 4 } else { 3 }),
                     move || {
                         let want = norm1(content);
                         let w = World::new(&root, fresh_serial());
-                        for got in all {
+                        // quick: every string of length <= 3, plus the normalised content and the raw content themselves
+                        let gots: Vec<&String> = all.iter().filter(|g| full_gots || g.chars().count() <= 3 || **g == want || *g == content).collect();
+                        for got in gots {
                             std::fs::write(&w.path, content.as_bytes()).expect("harness bug: write");
                             env.apply();
                             let p = w.path.clone();
@@ -802,11 +805,10 @@ fn run(ctx: &mut Ctx) {
                         Outcome::pass(format!("short-strings/env-{}/{}", env.name(), if content.contains("\r\n") { "with-crlf" } else if content.contains('\r') { "with-lone-cr" } else { "lf-only" }))
                     },
                 );
-                ctx.count("transitions", all.len() as u64);
+                ctx.count("family_s_asserts", if thorough { all.len() as u64 } else { all.iter().filter(|g| g.chars().count() <= 3).count() as u64 });
             }
         }
         ctx.fact("family_s_cases", ns);
-        ctx.fact("family_s_asserts", ns * all.len() as u64);
     }
     ctx.fact("family_a_cases", family_a_cases);
     ctx.fact("family_b_cases", serial - family_a_cases);
